@@ -318,3 +318,47 @@ func ruleC14Idx(c *Ctx) {
 	}
 	_ = token.ADD
 }
+
+// ruleWgDone: every goroutine started after a wg.Add in a function that later waits on the
+// group signals Done on every exit (plainly or deferred); otherwise Wait never returns and the
+// caller — usually holding the controller lock — is wedged.
+func ruleWgDone(rule string) ruleFn {
+	return func(c *Ctx) {
+		c.Doc(rule, "module-wide: a goroutine literal started in a function that calls (*sync.WaitGroup).Wait, with wg.Add before the go statement in its block, calls wg.Done on every path to its exit (a deferred Done counts)")
+		n := 0
+		for _, fn := range prodFns(c.P) {
+			if len(AnyCallsTo(fn, "(*sync.WaitGroup).Wait")) == 0 {
+				continue
+			}
+			eachInstr(fn, func(in ssa.Instruction) {
+				g, ok := in.(*ssa.Go)
+				if !ok {
+					return
+				}
+				added := false
+				for _, x := range g.Block().Instrs {
+					if x == in {
+						break
+					}
+					if callMatches(x, "(*sync.WaitGroup).Add") {
+						added = true
+					}
+				}
+				mc, isLit := g.Call.Value.(*ssa.MakeClosure)
+				if !added || !isLit {
+					return
+				}
+				n++
+				cl := mc.Fn.(*ssa.Function)
+				var rets []ssa.Instruction
+				for _, r := range Returns(cl) {
+					rets = append(rets, r)
+				}
+				c.Guard(rule, cl, rets, "goroutine exit", nil, called("(*sync.WaitGroup).Done"))
+			})
+		}
+		if n < 5 {
+			c.Undecided(rule, "vacuity-floor", "", fmt.Sprintf("only %d waited-for goroutines found", n))
+		}
+	}
+}
